@@ -384,9 +384,14 @@ func (w *World) currentModel() map[*Term]string {
 
 func (w *World) assert(c Bool, label, where string) {
 	if !w.past() {
-		// already checked by the path this one was forked from
+		// already checked by the path this one was forked from; a symbolic assertion carries one decision
+		// entry saying whether the path went on under the assumption that it held (0) or not (1)
 		if c.t != nil {
-			w.pc = append(w.pc, c.t)
+			d := w.prefix[len(w.taken)]
+			w.taken = append(w.taken, d)
+			if d == 0 {
+				w.pc = append(w.pc, c.t)
+			}
 		}
 		return
 	}
@@ -414,17 +419,21 @@ func (w *World) assert(c Bool, label, where string) {
 		// pc ∧ ¬c unsat and pc sat (the path is feasible) ⇒ pc ∧ c sat: no second query needed
 		w.proved = append(w.proved, label)
 		w.pc = append(w.pc, c.t)
+		w.taken = append(w.taken, 0)
 		return
 	case "sat":
 		w.violation("assert", label, where, m)
 	default:
 		w.inconcl = append(w.inconcl, "assert "+label+": "+r)
 	}
-	// continue under the assumption that the assertion held
-	if !w.feasible(c) {
-		panic(pathEnd{"after-violation"})
+	// continue under the assumption that the assertion held; if it cannot hold on this path at all,
+	// continue unconstrained so that later assertions (possibly another property's) are still evaluated
+	if w.feasible(c) {
+		w.pc = append(w.pc, c.t)
+		w.taken = append(w.taken, 0)
+	} else {
+		w.taken = append(w.taken, 1)
 	}
-	w.pc = append(w.pc, c.t)
 }
 
 func (w *World) tracef(format string, a ...interface{}) {
